@@ -324,7 +324,7 @@ Proof.
     apply (H grp Hg a b Ha Hb Hab).
 Qed.
 
-(* ------------------------------------------------------------------ requests_aggregation: what holds and what does not *)
+(* ------------------------------------------------------------------ requests_aggregation *)
 (* requests that differ in some compared attribute are never merged: ids and groups are returned untouched *)
 Lemma agg_find_none rqs st i : forall cand,
   (forall j, In j cand -> j = i \/ a_sig (nth i rqs (mkA [] 0 false)) <> a_sig (nth j rqs (mkA [] 0 false))) ->
@@ -360,36 +360,13 @@ Proof.
   apply NoDup_nth_neq; try assumption; rewrite ?map_length; lia.
 Qed.
 
-(* K2: merging r1 (declared disjoint from x and from y by two pair groups) into r2 (declared in one triple group
-   {r2, x, y}) deletes the triple: the declared pair x / y is no longer declared anywhere *)
+(* regression data: the inputs on which the aggregation of the pinned tree lost a declared pair (K2) / kept a stale
+   id (K3); see Props/C12.v examples *)
 Definition k2_rqs : list areq := [mkA [0] 7 true; mkA [1] 1 true; mkA [2] 1 true; mkA [3] 8 true].
 Definition k2_groups : list grp := [mkG 0 [[3]; [1]]; mkG 1 [[0]; [1]]; mkG 2 [[0]; [3]; [2]]].
 Definition k2_declared : list (list Z) := [[3; 1]; [0; 1]; [0; 3; 2]].
-
-Theorem aggregation_drops_pair_refuted :
-  exists rqs gs declared,
-    covered_ok declared gs = true /\ covered_ok declared (s_groups (aggregate rqs gs)) = false.
-Proof. exists k2_rqs, k2_groups, k2_declared. split; vm_compute; reflexivity. Qed.
-
-(* K3: two groups holding the absorbing request's old id sit next to each other: the second one is skipped by the
-   remove-while-iterating loop and keeps an id that no request carries any more *)
 Definition k3_rqs : list areq := [mkA [0] 1 true; mkA [1] 5 false; mkA [2] 1 true; mkA [3] 1 true].
 Definition k3_groups : list grp := [mkG 0 [[1]; [2]]; mkG 1 [[3]; [2]]; mkG 2 [[3]; [1]; [0]]].
-
-Theorem aggregation_stale_refuted :
-  exists rqs gs,
-    no_stale (map a_id rqs) gs = true /\
-    no_stale (final_ids (aggregate rqs gs)) (s_groups (aggregate rqs gs)) = false.
-Proof. exists k3_rqs, k3_groups. split; vm_compute; reflexivity. Qed.
-
-(* K1: step 4 of compute_path_dsjctn tests the include list against the *short list* of the candidate, which only
-   holds ROADMs and the element right after each ROADM: any other line element is never "part" of it *)
-Definition k1_net : net :=
-  mkNet [(0, [(1, 1)]); (1, [(0, 1); (2, 1)]); (2, [(3, 1)]); (3, [(4, 100)]); (4, [(5, 1)]); (5, [(4, 1)])]
-        [KT; KR; KL; KL; KR; KT] [([1; 2; 3; 4], None)].
-Theorem shortlist_ispart_refuted :
-  exists n p inc, route_ok (ngraph n) 0 5 inc p = true /\ ispart inc (short_list n p) = false.
-Proof. exists k1_net, [0; 1; 2; 3; 4; 5], [3]. split; vm_compute; reflexivity. Qed.
 
 (* ------------------------------------------------------------------ links: direction does not matter *)
 Lemma norm_swap x y : norm (x, y) = norm (y, x).
@@ -441,8 +418,7 @@ Proof.
       apply pairwise_spec. exists l1, l2. exact H.
 Qed.
 
-(* ================================================================== proposed repair of requests_aggregation
-   (aggregate_fixed in Model/Disjoint.v): groups are preserved *)
+(* ================================================================== requests_aggregation preserves the groups *)
 (* ---------- list helpers ---------- *)
 Lemma id_at_set_nth_same : forall (ids : list rid) j v, (j < length ids)%nat -> id_at (set_nth j v ids) j = v.
 Proof.
@@ -542,12 +518,12 @@ Record Inv (st : astate) : Prop := {
   inv_nodup : forall d, In d (s_groups st) -> NoDup (members d)
 }.
 
-Lemma agg_find_fixed_spec rqs st i : forall cand j,
-  agg_find_fixed rqs st i cand = Some j ->
+Lemma agg_find_spec rqs st i : forall cand j,
+  agg_find rqs st i cand = Some j ->
   In j cand /\ id_at (s_ids st) i <> id_at (s_ids st) j /\
-  same_disj_fixed (id_at (s_ids st) i) (id_at (s_ids st) j) (s_groups st) = true.
+  same_disj (id_at (s_ids st) i) (id_at (s_ids st) j) (s_groups st) = true.
 Proof.
-  induction cand as [|c t IH]; intros j H; cbn [agg_find_fixed] in H; [discriminate|].
+  induction cand as [|c t IH]; intros j H; cbn [agg_find] in H; [discriminate|].
   match type of H with (if ?c then _ else _) = _ => destruct c eqn:E end.
   - injection H as <-. rewrite !andb_true_iff in E. destruct E as (((E1 & _) & E3) & _).
     split; [left; reflexivity|]. split; [|exact E3].
@@ -573,15 +549,15 @@ Qed.
 Definition rename (ri new : rid) (d : grp) : grp :=
   if rid_mem ri (members d) then mkG (gid d) (remove_first ri (members d) ++ [new]) else d.
 
-Lemma agg_step_fixed_unfold rqs st i j :
-  agg_find_fixed rqs st i (s_local st) = Some j ->
-  agg_step_fixed rqs st i =
+Lemma agg_step_unfold rqs st i j :
+  agg_find rqs st i (s_local st) = Some j ->
+  agg_step rqs st i =
     let ri := id_at (s_ids st) i in
     let old := id_at (s_ids st) j in
     let new := old ++ ri in
     mkS (set_nth j new (s_ids st)) (filter (fun k => negb (Nat.eqb k i)) (s_local st))
         (filter (fun d => negb (rid_mem old (members d))) (map (rename ri new) (s_groups st))).
-Proof. intros H. unfold agg_step_fixed. rewrite H. reflexivity. Qed.
+Proof. intros H. unfold agg_step. rewrite H. reflexivity. Qed.
 
 Lemma rename_members ri new d m :
   NoDup (members d) -> In m (members (rename ri new d)) ->
@@ -606,14 +582,14 @@ Qed.
 
 Lemma step_preserves rqs st i :
   Inv st -> In i (s_local st) ->
-  let st' := agg_step_fixed rqs st i in
+  let st' := agg_step rqs st i in
   Inv st' /\ (forall a b, Covered (s_groups st) a b -> Covered (s_groups st') a b) /\
   incl (s_local st') (s_local st).
 Proof.
-  intros HI Hi. cbn zeta. destruct (agg_find_fixed rqs st i (s_local st)) as [j|] eqn:Ef.
-  2:{ unfold agg_step_fixed. rewrite Ef. split; [exact HI|]. split; [auto|apply incl_refl]. }
-  rewrite (agg_step_fixed_unfold _ _ _ _ Ef). cbn zeta.
-  destruct (agg_find_fixed_spec _ _ _ _ _ Ef) as (Hj & Hne & Hsd).
+  intros HI Hi. cbn zeta. destruct (agg_find rqs st i (s_local st)) as [j|] eqn:Ef.
+  2:{ unfold agg_step. rewrite Ef. split; [exact HI|]. split; [auto|apply incl_refl]. }
+  rewrite (agg_step_unfold _ _ _ _ Ef). cbn zeta.
+  destruct (agg_find_spec _ _ _ _ _ Ef) as (Hj & Hne & Hsd).
   set (ids := s_ids st) in *. set (ri := id_at ids i) in *. set (old := id_at ids j) in *.
   set (new := old ++ ri). set (gs := s_groups st) in *.
   destruct HI as [Hrange Hnonempty Hatoms Hmembers Hnodup]. fold ids gs in Hrange, Hnonempty, Hatoms, Hmembers, Hnodup.
@@ -700,7 +676,7 @@ Proof.
     (* the group is deleted: a group of ri with the same other members takes over *)
     assert (Hshape : exists d', In d' gs /\ In ri (members d') /\
                                 set_eq (rid_remove_all ri (members d')) (rid_remove_all old (members d)) = true).
-    { unfold same_disj_fixed in Hsd. fold ri old gs in Hsd.
+    { unfold same_disj in Hsd. fold ri old gs in Hsd.
       assert (Hio : in_some old gs = true) by (apply in_some_spec; exists d; split; assumption).
       rewrite Hio in Hsd. destruct (in_some ri gs); [|discriminate].
       assert (Hs : In (rid_remove_all old (members d)) (shape old gs)).
@@ -737,21 +713,21 @@ Proof.
   - cbn [s_local]. intros k Hk. apply Hloc in Hk. tauto.
 Qed.
 
-Lemma step_keeps_local rqs st i k : In k (s_local st) -> k <> i -> In k (s_local (agg_step_fixed rqs st i)).
+Lemma step_keeps_local rqs st i k : In k (s_local st) -> k <> i -> In k (s_local (agg_step rqs st i)).
 Proof.
-  intros Hk Hne. unfold agg_step_fixed. destruct (agg_find_fixed rqs st i (s_local st)); [|exact Hk].
+  intros Hk Hne. unfold agg_step. destruct (agg_find rqs st i (s_local st)); [|exact Hk].
   cbn [s_local]. apply filter_In. split; [exact Hk|]. apply negb_true_iff. apply Nat.eqb_neq. exact Hne.
 Qed.
 
 Lemma fold_preserves rqs : forall l st,
   NoDup l -> (forall k, In k l -> In k (s_local st)) -> Inv st ->
-  let st' := fold_left (agg_step_fixed rqs) l st in
+  let st' := fold_left (agg_step rqs) l st in
   Inv st' /\ (forall a b, Covered (s_groups st) a b -> Covered (s_groups st') a b).
 Proof.
   induction l as [|i t IH]; intros st Hnd Hin HI; cbn [fold_left]; [split; [exact HI|auto]|].
   inversion Hnd as [|? ? Hni Hnt]; subst.
   destruct (step_preserves rqs st i HI (Hin i (or_introl eq_refl))) as (HI1 & Hc1 & _).
-  destruct (IH (agg_step_fixed rqs st i) Hnt) as (HI2 & Hc2).
+  destruct (IH (agg_step rqs st i) Hnt) as (HI2 & Hc2).
   - intros k Hk. apply step_keeps_local; [apply Hin; right; exact Hk|]. intros ->. contradiction.
   - exact HI1.
   - split; [exact HI2|]. intros a b H. apply Hc2, Hc1. exact H.
@@ -763,17 +739,17 @@ Proof.
   apply rid_mem_In. destruct (inv_members st HI d m Hd Hm) as (k & Hk & <-). apply in_map. exact Hk.
 Qed.
 
-(* groups_preserved for the repaired aggregation: every pair declared disjoint is still declared for the requests
+(* groups_preserved for requests_aggregation: every pair declared disjoint is still declared for the requests
    that now carry it, and no group names a request that no longer exists.
    Hypothesis = well-formed input (Inv of the initial state): request ids are non-empty and share no atom, groups
    only name existing requests and name each at most once. *)
-Theorem aggregate_fixed_preserves rqs gs :
+Theorem aggregate_preserves rqs gs :
   Inv (mkS (map a_id rqs) (seq 0 (length rqs)) gs) ->
-  let st := aggregate_fixed rqs gs in
+  let st := aggregate rqs gs in
   (forall a b, Covered gs a b -> Covered (s_groups st) a b) /\
   no_stale (final_ids st) (s_groups st) = true.
 Proof.
-  intros HI. cbn zeta. unfold aggregate_fixed.
+  intros HI. cbn zeta. unfold aggregate.
   destruct (fold_preserves rqs (seq 0 (length rqs)) (mkS (map a_id rqs) (seq 0 (length rqs)) gs)
               (seq_NoDup _ _) (fun k H => H) HI) as (HI' & Hc).
   split; [exact Hc|]. apply inv_no_stale. exact HI'.
